@@ -469,6 +469,19 @@ func (vf *VerifyFunc) boundsCheck(st *State, idx, ln string, in ssa.Instruction)
 	st.check("nopanic", "index@"+st.pos(in), "C14", "index out of range", st.pos(in), "(and (<= 0 "+idx+") (< "+idx+" "+ln+"))")
 }
 
+// elemObj: address of element idx (absolute) of the backing array base, as a sub-object of that backing.
+func (st *State) elemObj(base, idx string) string {
+	t := "(fld_addr " + base + " (- (- 1) " + idx + "))"
+	if !st.useOld {
+		k := "eo:" + t
+		if !st.declSet[k] {
+			st.declSet[k] = true
+			st.assume(and(eq("(fld_base "+t+")", base), eq("(obj_root "+t+")", "(obj_root "+base+")")))
+		}
+	}
+	return t
+}
+
 func (vf *VerifyFunc) indexAddr(st *State, fr *Frame, x *ssa.IndexAddr) *Val {
 	base := st.get(fr, x.X)
 	idx := st.get(fr, x.Index)
@@ -487,20 +500,20 @@ func (vf *VerifyFunc) indexAddr(st *State, fr *Frame, x *ssa.IndexAddr) *Val {
 		vf.boundsCheck(st, idx.Tm, "(s_len "+base.Tm+")", x)
 		abs := "(+ (s_off " + base.Tm + ") " + idx.Tm + ")"
 		if structFields(et) != nil {
-			return &Val{T: x.Type(), S: SInt, Tm: "(fld_addr (s_base " + base.Tm + ") (- (- 1) " + abs + "))"}
+			return &Val{T: x.Type(), S: SInt, Tm: st.elemObj("(s_base "+base.Tm+")", abs)}
 		}
-		return &Val{T: x.Type(), S: SInt, Tm: "(fld_addr (s_base " + base.Tm + ") (- (- 1) " + abs + "))", A: &Addr{Kind: "elem", Base: "(s_base " + base.Tm + ")", Idx: abs, ElemT: et}}
+		return &Val{T: x.Type(), S: SInt, Tm: st.elemObj("(s_base "+base.Tm+")", abs), A: &Addr{Kind: "elem", Base: "(s_base " + base.Tm + ")", Idx: abs, ElemT: et}}
 	case *types.Pointer: // *[N]T
 		arr := bt.Elem().Underlying().(*types.Array)
 		vf.derefCheck(st, base, x)
 		vf.boundsCheck(st, idx.Tm, fmt.Sprint(arr.Len()), x)
 		if isByte(arr.Elem()) {
-			return &Val{T: x.Type(), S: SInt, Tm: "(fld_addr " + base.Tm + " (- (- 1) " + idx.Tm + "))", A: &Addr{Kind: "bytes", Base: base.Tm, Idx: idx.Tm, ElemT: et}}
+			return &Val{T: x.Type(), S: SInt, Tm: st.elemObj(base.Tm, idx.Tm), A: &Addr{Kind: "bytes", Base: base.Tm, Idx: idx.Tm, ElemT: et}}
 		}
 		if structFields(et) != nil {
-			return &Val{T: x.Type(), S: SInt, Tm: "(fld_addr " + base.Tm + " (- (- 1) " + idx.Tm + "))"}
+			return &Val{T: x.Type(), S: SInt, Tm: st.elemObj(base.Tm, idx.Tm)}
 		}
-		return &Val{T: x.Type(), S: SInt, Tm: "(fld_addr " + base.Tm + " (- (- 1) " + idx.Tm + "))", A: &Addr{Kind: "elem", Base: base.Tm, Idx: idx.Tm, ElemT: et}}
+		return &Val{T: x.Type(), S: SInt, Tm: st.elemObj(base.Tm, idx.Tm), A: &Addr{Kind: "elem", Base: base.Tm, Idx: idx.Tm, ElemT: et}}
 	}
 	st.note("indexaddr abstracted")
 	return st.freshVal(x.Type(), "idxaddr")
